@@ -13,7 +13,7 @@ Definition wf_call (c : cfg) (ns : option str) : Prop :=
   c_ns_key c = true -> exists n, ns = Some n /\ ~ In slash n.
 
 Definition wf_op (c : cfg) (o : op) : Prop :=
-  match o with Load _ ns _ _ => wf_call c ns | _ => True end.
+  match o with Load _ ns _ _ _ => wf_call c ns | _ => True end.
 
 Lemma split_unique (a b a' b' : str) :
   ~ In slash a -> ~ In slash a' -> a ++ slash :: b = a' ++ slash :: b' -> a = a' /\ b = b'.
@@ -138,8 +138,8 @@ Lemma entry_ok_same_store c s s' ck t :
   store s' = store s -> next_ver s' = next_ver s -> entry_ok c s ck t -> entry_ok c s' ck t.
 Proof. unfold entry_ok. intros -> ->. auto. Qed.
 
-Lemma cached_load_inv c s name ns g a :
-  wf_cfg c -> Inv c s -> wf_call c ns -> Inv c (snd (cached_load c s name ns g a)).
+Lemma cached_load_inv c s name ns g a rb :
+  wf_cfg c -> Inv c s -> wf_call c ns -> Inv c (snd (cached_load c s name ns g a rb)).
 Proof.
   intros Hc HI Hw. unfold cached_load.
   destruct (lru_get (cache s) (cache_key c name ns)) as [[t ch1]|] eqn:Eg.
@@ -158,13 +158,17 @@ Proof.
       * constructor; simpl; auto.
         -- rewrite Hcap1. apply (inv_cap _ _ HI).
         -- apply (inv_store _ _ HI).
-    + simpl. constructor; simpl.
+    + simpl. destruct rb; constructor; simpl.
       * apply lru_mutate_inv; exact Hi1.
       * rewrite Hcap1. apply (inv_cap _ _ HI).
       * apply (inv_store _ _ HI).
       * intros ck t0 Hin. apply In_od_mutate in Hin as [Hin|(t1 & Hin & ->)].
         -- apply Hent1; exact Hin.
         -- apply entry_ok_set_globals. apply Hent1; exact Hin.
+      * exact Hi1.
+      * rewrite Hcap1. apply (inv_cap _ _ HI).
+      * apply (inv_store _ _ HI).
+      * exact Hent1.
   - destruct (uncached_load c s name ns g a) as [[t'|] fn] eqn:Eu; simpl.
     + destruct (lru_set_inv (cache s) (cache_key c name ns) t' (inv_lru _ _ HI)) as [Hi2 Hcap2].
       constructor; simpl; auto.
@@ -200,7 +204,7 @@ Qed.
 
 Lemma step_inv c s o : wf_cfg c -> Inv c s -> wf_op c o -> Inv c (snd (step c s o)).
 Proof.
-  intros Hc HI Hw. destruct o as [name ns g a|k content|k|]; simpl.
+  intros Hc HI Hw. destruct o as [name ns g a via|k content|k|]; simpl.
   - apply cached_load_inv; auto.
   - constructor; simpl; try apply HI.
     + intros k' ct v. rewrite assoc_dict_set. destruct (str_eqb k' k).
@@ -240,8 +244,8 @@ Qed.
 
 (** * The caller's globals are always the ones bound *)
 
-Lemma loaded_globals_are_callers c s name ns g a ct g' :
-  fst (cached_load c s name ns g a) = Loaded ct g' -> g' = g.
+Lemma loaded_globals_are_callers c s name ns g a rb ct g' :
+  fst (cached_load c s name ns g a rb) = Loaded ct g' -> g' = g.
 Proof.
   unfold cached_load, uncached_load.
   destruct (lru_get (cache s) (cache_key c name ns)) as [[t ch1]|].
@@ -263,8 +267,9 @@ Definition truth (c : cfg) (s : st) (name : str) (ns : option str) (g : N) : obs
   | None => NotFound
   end.
 
-Lemma uncached_is_truth c s name ns g a :
-  fail_next s = false -> fst (uncached_step c s (Load name ns g a)) = truth c s name ns g.
+Lemma uncached_is_truth c s name ns g a via :
+  fail_next s = false ->
+  fst (uncached_step c s (Load name ns g a via)) = truth c s name ns (if via then 0%N else g).
 Proof.
   intro Hf. simpl. unfold uncached_load, truth. rewrite Hf.
   destruct (assoc _ _) as [[? ?]|]; reflexivity.
@@ -282,11 +287,11 @@ Qed.
 
 (** * Transparency under auto-reload with freshness information *)
 
-Lemma cached_load_fresh c s name ns g a :
+Lemma cached_load_fresh c s name ns g a rb :
   wf_cfg c -> Inv c s -> wf_call c ns ->
   c_auto_reload c = true -> c_fresh c = true ->
-  fst (cached_load c s name ns g a) = truth c s name ns g
-  \/ (fail_next s = true /\ fst (cached_load c s name ns g a) = NotFound).
+  fst (cached_load c s name ns g a rb) = truth c s name ns g
+  \/ (fail_next s = true /\ fst (cached_load c s name ns g a rb) = NotFound).
 Proof.
   intros Hc HI Hw Har Hfr. unfold cached_load.
   pose proof (uncached_load_obs c s name ns g a) as Hu.
@@ -335,12 +340,12 @@ Definition keys_of (s : st) : list str := keys (od (cache s)).
     cache key is [ck] obtained content [ct] from the non-caching loader, and
     [ck] has been in the cache after every step since. *)
 Definition loaded_before (c : cfg) (ops : list op) (ck : str) (ct : N) : Prop :=
-  exists ops1 name ns g a ops2,
-    ops = ops1 ++ Load name ns g a :: ops2 /\
+  exists ops1 name ns g a via ops2,
+    ops = ops1 ++ Load name ns g a via :: ops2 /\
     cache_key c name ns = ck /\
     fail_next (final c (init c) ops1) = false /\
-    truth c (final c (init c) ops1) name ns g = Loaded ct g /\
-    forall n, In ck (keys_of (final c (init c) (ops1 ++ firstn (S n) (Load name ns g a :: ops2)))).
+    (exists g', truth c (final c (init c) ops1) name ns g' = Loaded ct g') /\
+    forall n, In ck (keys_of (final c (init c) (ops1 ++ firstn (S n) (Load name ns g a via :: ops2)))).
 
 Lemma final_app c s ops1 ops2 : final c s (ops1 ++ ops2) = final c (final c s ops1) ops2.
 Proof. revert s. induction ops1 as [|o ops1 IH]; simpl; intro s; [reflexivity|apply IH]. Qed.
@@ -353,8 +358,8 @@ Lemma loaded_before_extend c ops o ck ct :
   In ck (keys_of (final c (init c) (ops ++ [o]))) ->
   loaded_before c (ops ++ [o]) ck ct.
 Proof.
-  intros (ops1 & name & ns & g & a & ops2 & -> & Hk & Hf & Ht & Hall) Hin.
-  exists ops1, name, ns, g, a, (ops2 ++ [o]). repeat split; auto.
+  intros (ops1 & name & ns & g & a & via & ops2 & -> & Hk & Hf & Ht & Hall) Hin.
+  exists ops1, name, ns, g, a, via, (ops2 ++ [o]). repeat split; auto.
   - rewrite <- app_assoc. reflexivity.
   - intro n. specialize (Hall n). simpl in *.
     destruct (Nat.le_gt_cases n (length ops2)) as [Hle|Hgt].
@@ -387,30 +392,33 @@ Proof.
     assert (Hold : forall t0, In (ck, t0) (od (cache s)) -> t_content t0 = t_content t ->
                               loaded_before c (ops ++ [o]) ck (t_content t)).
     { intros t0 Hin0 <-. apply loaded_before_extend; auto. }
-    destruct o as [name ns g a|k content|k|]; simpl in Hin;
+    destruct o as [name ns g0 a via|k content|k|]; simpl in Hin;
       try (apply (Hold t Hin eq_refl)).
     (* Load *)
+    set (g := if via then 0%N else g0) in *.
+    set (rb := negb via) in *.
     unfold cached_load in Hin.
     assert (Hnew : forall t' fn, uncached_load c s name ns g a = (Some t', fn) ->
-                   loaded_before c (ops ++ [Load name ns g a]) (cache_key c name ns) (t_content t')).
-    { intros t' fn Eu. exists ops, name, ns, g, a, []. 
+                   loaded_before c (ops ++ [Load name ns g0 a via]) (cache_key c name ns) (t_content t')).
+    { intros t' fn Eu. exists ops, name, ns, g0, a, via, [].
       pose proof (uncached_load_obs c s name ns g a) as Hu. rewrite Eu in Hu.
       destruct Hu as [Hu1 Hu2]. repeat split; auto.
-      - fold s. rewrite <- Hu1. f_equal.
+      - exists g. fold s. rewrite <- Hu1. f_equal.
         unfold uncached_load in Eu. rewrite Hu2 in Eu.
         destruct (assoc _ _) as [[? ?]|]; inversion Eu; reflexivity.
       - intro n. simpl. rewrite firstn_nil.
         (* the key is in the cache after this very step *)
-        rewrite final_snoc. fold s. simpl. unfold cached_load.
+        rewrite final_snoc. fold s. simpl. fold g. fold rb. unfold cached_load.
         destruct (lru_get (cache s) (cache_key c name ns)) as [[t1 ch1]|] eqn:Eg.
         + destruct (c_auto_reload c && negb (is_up_to_date s t1 a)).
           * rewrite Eu. simpl. unfold keys_of. simpl.
             unfold lru_set. destruct (assoc _ (od ch1)); simpl;
               [unfold od_move_to_end|]; rewrite keys_app, in_app_iff; simpl; auto.
-          * simpl. unfold keys_of. simpl. rewrite od_mutate_keys.
+          * simpl. unfold keys_of. simpl.
             unfold lru_get in Eg. destruct (assoc _ _) eqn:Ea; [|discriminate].
-            inversion Eg; subst. simpl. unfold od_move_to_end.
-            rewrite keys_app, in_app_iff; simpl; auto.
+            inversion Eg; subst.
+            destruct rb; simpl; rewrite ?od_mutate_keys; unfold od_move_to_end;
+              rewrite keys_app, in_app_iff; simpl; auto.
         + rewrite Eu. simpl. unfold keys_of. simpl.
           unfold lru_set. destruct (assoc _ (od (cache s))); simpl;
             [unfold od_move_to_end|]; rewrite keys_app, in_app_iff; simpl; auto. }
@@ -420,9 +428,11 @@ Proof.
         -- apply In_lru_set in Hin as [[-> ->]|Hin]; [eapply Hnew; eauto|].
            eapply Hold; [eapply In_lru_get; eauto|reflexivity].
         -- eapply Hold; [eapply In_lru_get; eauto|reflexivity].
-      * simpl in Hin. apply In_od_mutate in Hin as [Hin|(t0 & Hin & ->)].
+      * simpl in Hin. destruct rb; simpl in Hin.
+        -- apply In_od_mutate in Hin as [Hin|(t0 & Hin & ->)].
+           ++ eapply Hold; [eapply In_lru_get; eauto|reflexivity].
+           ++ eapply Hold; [eapply In_lru_get; eauto|]. destruct t0; reflexivity.
         -- eapply Hold; [eapply In_lru_get; eauto|reflexivity].
-        -- eapply Hold; [eapply In_lru_get; eauto|]. destruct t0; reflexivity.
     + destruct (uncached_load c s name ns g a) as [[t'|] fn] eqn:Eu; simpl in Hin.
       * apply In_lru_set in Hin as [[-> ->]|Hin]; [eapply Hnew; eauto|].
         eapply Hold; eauto.
@@ -431,10 +441,13 @@ Qed.
 
 (** * The full transparency statement *)
 
-Theorem caching_transparent c ops name ns g a :
+Theorem caching_transparent c ops name ns g0 a via :
   wf_cfg c -> Forall (wf_op c) ops -> wf_call c ns ->
   let s := final c (init c) ops in
-  let ob := fst (step c s (Load name ns g a)) in
+  let ob := fst (step c s (Load name ns g0 a via)) in
+  (* a template loaded from inside a render is rendered in the including
+     template's context: its own globals are not observed *)
+  let g := if via then 0%N else g0 in
   (* what the non-caching loader gives at this moment *)
   ob = truth c s name ns g
   (* or nothing, if the source is failing during this step *)
@@ -445,12 +458,13 @@ Theorem caching_transparent c ops name ns g a :
   \/ ((c_auto_reload c && c_fresh c = false) /\
       exists ct, ob = Loaded ct g /\ loaded_before c ops (cache_key c name ns) ct).
 Proof.
-  intros Hc Hf Hw s ob.
+  intros Hc Hf Hw s ob g.
   pose proof (final_inv c ops Hc Hf _ (init_inv c Hc)) as HI. fold s in HI.
+  subst ob. simpl. fold g.
   destruct (c_auto_reload c && c_fresh c) eqn:Eaf.
   - apply andb_true_iff in Eaf as [Har Hfr].
-    destruct (cached_load_fresh c s name ns g a Hc HI Hw Har Hfr) as [H|H]; auto.
-  - subst ob. simpl. unfold cached_load.
+    destruct (cached_load_fresh c s name ns g a (negb via) Hc HI Hw Har Hfr) as [H|H]; auto.
+  - unfold cached_load.
     pose proof (uncached_load_obs c s name ns g a) as Hu.
     destruct (lru_get (cache s) (cache_key c name ns)) as [[t ch1]|] eqn:Eg.
     + destruct (c_auto_reload c && negb (is_up_to_date s t a)).
@@ -470,10 +484,10 @@ Example transparent_example :
   let c := {| c_cap := 1; c_auto_reload := true; c_ns_key := true; c_ns_aware := true; c_fresh := true |} in
   let u := [117%N] in let a := [97%N] in let b := [98%N] in
   let ops := [Modify (u ++ slash :: a) 7; Modify (u ++ slash :: b) 8;
-              Load a (Some u) 1 false; Load a (Some u) 0 false; Load b (Some u) 0 false;
+              Load a (Some u) 1 false false; Load a (Some u) 0 false false; Load b (Some u) 0 false true;
               Modify (u ++ slash :: b) 9] in
   wf_cfg c /\ Forall (wf_op c) ops /\
-  map fst (run c (init c) (ops ++ [Load b (Some u) 2 false])) =
+  map fst (run c (init c) (ops ++ [Load b (Some u) 2 false false])) =
     [Quiet; Quiet; Loaded 7 1; Loaded 7 0; Loaded 8 0; Quiet; Loaded 9 2].
 Proof.
   intros c u a b ops. split; [split; [simpl; lia|intros _; reflexivity]|]. split.
